@@ -25,7 +25,7 @@ var profC01 = ConcProfile{
 	Profile: Profile{
 		MaxBars: 9, MinBars: 1, Refresh: []string{"autort", "autort", "autoinj", "manual", "none"}, QLens: []int{-1, -1, 0, 1, 2, -2, -3, -4},
 		Pop: 25, Queue: 15, Prio: true, Ext: 10, Text: 2, Rm: 25, NoPop: 15, AbortW: 2,
-		SyncDecors: 2, PlainDecors: 1, Wraps: true, Fillers: []string{"bar", "tag", "nop"}, Notifier: 30, SmallWidth: 12, Faults: 8, UserWG: 20, Listeners: 20, DisabledPct: 6, Delay: 12, DelayNever: 50,
+		SyncDecors: 2, PlainDecors: 1, Wraps: true, Fillers: []string{"bar", "tag", "nop"}, Notifier: 30, SmallWidth: 12, Faults: 8, UserWG: 20, Listeners: 20, DisabledPct: 6, Delay: 12, DelayNever: 50, Peer: 30, BarePct: 8,
 	},
 	MaxBlocks: 4, MaxBlockOps: 10, Pars: 2, CancelIn: 10, PerturbMax: 3, HoldPct: 40, SyncPct: 60,
 }
@@ -35,7 +35,7 @@ var profC01 = ConcProfile{
 var profC01Seq = Profile{
 	MaxBars: 7, MinBars: 2, MaxSteps: 40, Refresh: []string{"manual", "autoinj"}, QLens: []int{-1, 0, 1, -2, -3},
 	Pop: 25, Queue: 20, Prio: true, Text: 1, Rm: 45, NoPop: 15, AbortW: 3, TicksW: 10,
-	SyncDecors: 1, PlainDecors: 1, Wraps: true, NoDecorPct: 30, ChurnW: 4, Fillers: []string{"tag", "nop"}, LateAdd: true, Cancel: 8, Faults: 8, Listeners: 20, DisabledPct: 6, Delay: 12, DelayNever: 50, AddTick: 10,
+	SyncDecors: 1, PlainDecors: 1, Wraps: true, NoDecorPct: 30, ChurnW: 4, Fillers: []string{"tag", "nop"}, LateAdd: true, Cancel: 8, Faults: 8, Listeners: 20, DisabledPct: 6, Delay: 12, DelayNever: 50, AddTick: 10, Peer: 30, BarePct: 12,
 }
 
 func genC01(t *rapid.T) interface{} {
